@@ -21,7 +21,7 @@
 (* the REAL payload cells, hook calls, leaf iteration counts and rows with *)
 (* this state after every step (conformance).                              *)
 (***************************************************************************)
-EXTENDS RA_SqlSem, Json
+EXTENDS RA_SqlSem, RA_Proc, Json
 
 CONSTANTS Contents, Sources, BuildDepth, EvalDepth, Emit
 
@@ -177,6 +177,30 @@ ProcessedAll ==
     (phase = "eval" /\ evhist # <<>> /\ evhist[Len(evhist)].a = "process")
         => \A n \in Reached(rel, FALSE) : FALSE      \* nothing reachable is left without a payload
 
+(* ---------------- the as-coded Processor refines the abstract machine ---------------- *)
+\* RA_Proc!Process is the transcription of _process_recursive; on every tree
+\* of the build phase (nothing payloaded yet) it must (unless the tree is in
+\* the class of the open findings F8 / F16):
+\*   - not raise,
+\*   - leave exactly the materializations the abstract machine reaches payloaded,
+\*   - call its hooks only on sources their engine can evaluate on its own and
+\*     never for statically empty / join-identity relations,
+\*   - return a tree with the same columns and engine that denotes the same rows.
+AsCoded == ProcessTop(rel, {})
+ProcessRefines ==
+    (phase = "eval" /\ evhist = <<>> /\ ~KF8(rel)) =>
+        /\ ~IsErr(AsCoded)
+        /\ AsCoded.paid = {n.name : n \in Reached(rel, FALSE)}
+        /\ \A i \in DOMAIN AsCoded.hooks : AsCoded.hooks[i].ok /\ ~AsCoded.hooks[i].trivial
+        /\ Cols(AsCoded.t) = Cols(rel) /\ Eng(AsCoded.t) = Eng(rel)
+        /\ (BagDet(rel, Env) /\ BagDet(AsCoded.t, Env)) => SameBag(Den(AsCoded.t, Env), ref)
+\* companion (expected to FAIL): in the excluded class the as-coded processor misbehaves
+KF8Gone ==
+    (phase = "eval" /\ evhist = <<>> /\ KF8(rel)) =>
+        /\ ~IsErr(AsCoded)
+        /\ AsCoded.paid = {n.name : n \in Reached(rel, FALSE)}
+        /\ \A i \in DOMAIN AsCoded.hooks : AsCoded.hooks[i].ok
+
 BDet == BagDet(rel, Env) /\ BagDet(rel, RevEnv(Env))
 LDet == ListDet(rel, Env) /\ ListDet(rel, RevEnv(Env))
 ContentKept == (LDet => Den(rel, Env) = ref) /\ (BDet => SameBag(Den(rel, Env), ref))
@@ -188,6 +212,8 @@ EmitState ==
             ldet |-> LDet, bdet |-> BDet,
             pay |-> pay, evals |-> evals, lastErr |-> lastErr,
             iteronly |-> IterOnly(rel), kf8 |-> KF8(rel),
+            hookspec |-> (IF IsErr(AsCoded) THEN <<>>
+                          ELSE [i \in DOMAIN AsCoded.hooks |-> [hook |-> AsCoded.hooks[i].hook, mas |-> AsCoded.hooks[i].mas]]),
             mats |-> {n.name : n \in MatNodes(rel)},
             matrows |-> [m \in {n.name : n \in MatNodes(rel)} |-> MatRows(CHOOSE n \in MatNodes(rel) : n.name = m)],
             fired |-> evhist # <<>>])>>)
